@@ -84,6 +84,9 @@ type CrashCopy struct {
 	Router  string
 	Content []byte
 	Missing bool
+	// Others holds what else the process would leave behind next to the state
+	// file (temporary and backup files: same name plus a suffix), by suffix.
+	Others map[string][]byte
 }
 
 type World struct {
@@ -114,7 +117,8 @@ type World struct {
 	cancels      []context.CancelFunc
 	probeTr      *http.Transport
 	routerOf     map[*server.Router]string
-	CrashOn      bool // copy the state file at snapshot.* steps
+	CrashOn      bool             // copy the state file at snapshot.* steps
+	reqHolds     map[string]*Hold // server mode: holds armed by request id
 	certDir      string
 	dead         atomic.Bool
 	pointN       map[string]int
@@ -268,6 +272,13 @@ func NewWorld(sc *Scenario, s *Sim, h *History) *World {
 	}
 	s.namer = w.nameFor
 	s.onStep = w.onStep
+	s.holdFor = w.holdFor
+	s.onHold = func(at string) {
+		// operations can be aligned with "a goroutine has just been descheduled at <point>"
+		w.mu.Lock()
+		w.bumpPointLocked("hold:" + at)
+		w.mu.Unlock()
+	}
 	w.CrashOn = sc.Params["crash"] != 0
 	w.certSeen = map[string]bool{}
 	if sc.Params["acme"] != 0 {
@@ -379,6 +390,27 @@ func (w *World) TargetID(t *server.Target) string {
 	return w.tids[t]
 }
 
+// holdFor hands the hold of a server-mode request (armed under its request id,
+// because the goroutine that will serve it does not exist yet) to the goroutine
+// that reaches the hold's yield point with that request.
+func (w *World) holdFor(point string, arg any) *Hold {
+	req, ok := arg.(*http.Request)
+	if !ok {
+		return nil
+	}
+	w.mu.Lock()
+	defer w.mu.Unlock()
+	if len(w.reqHolds) == 0 {
+		return nil
+	}
+	rid := req.Header.Get("X-Request-Id")
+	if h := w.reqHolds[rid]; h != nil && h.At == point {
+		delete(w.reqHolds, rid)
+		return h
+	}
+	return nil
+}
+
 func (w *World) nameFor(point string, arg any) string {
 	w.mu.Lock()
 	defer w.mu.Unlock()
@@ -422,22 +454,48 @@ func (w *World) onStep(t *Task) {
 		e.Obj = o
 	}
 	crash := w.CrashOn && strings.HasPrefix(t.point, "snapshot.")
+	fsCrash := w.CrashOn && strings.HasPrefix(t.point, "fs@")
 	var rname string
 	if r, ok := t.arg.(*server.Router); ok {
 		rname = w.routerOf[r]
+	}
+	var all []string
+	if fsCrash {
+		for n := range w.Routers {
+			all = append(all, n)
+		}
+		sort.Strings(all)
 	}
 	w.mu.Unlock()
 	seq := w.H.Add(e)
 	if crash && rname != "" {
 		w.copyState(seq, t.point, rname)
 	}
+	// a file-system operation is about to run (autoyield build): the process may be killed right here
+	for _, n := range all {
+		w.copyState(seq, t.point, n)
+	}
 }
 
 func (w *World) copyState(seq int, point, rname string) {
 	ri := w.router(rname)
 	b, err := os.ReadFile(ri.StatePath)
+	var others map[string][]byte
+	if ents, e2 := os.ReadDir(filepath.Dir(ri.StatePath)); e2 == nil {
+		base := filepath.Base(ri.StatePath)
+		for _, en := range ents {
+			if n := en.Name(); n != base && strings.HasPrefix(n, base) && !en.IsDir() {
+				if c, e3 := os.ReadFile(filepath.Join(filepath.Dir(ri.StatePath), n)); e3 == nil {
+					if others == nil {
+						others = map[string][]byte{}
+					}
+					others[strings.TrimPrefix(n, base)] = c
+				}
+			}
+		}
+	}
 	w.mu.Lock()
-	w.Crashes = append(w.Crashes, CrashCopy{Seq: seq, Point: point, Router: rname, Content: b, Missing: err != nil})
+	w.Crashes = append(w.Crashes, CrashCopy{Seq: seq, Point: point, Router: rname, Content: b, Missing: err != nil, Others: others})
 	w.mu.Unlock()
 }
 
@@ -519,6 +577,14 @@ func (w *World) execOp(actor string, idx int, op *Op) {
 	}
 	switch op.Kind {
 	case "sleep":
+	case "probe_mode":
+		// fault: the listed targets answer probes differently from here on
+		for _, t := range op.Targets {
+			if ft := w.Targets[t]; ft != nil {
+				ft.SetProbeMode(op.Sim)
+				w.H.Add(Event{Kind: "fault", Target: t, Info: "probe-mode:" + op.Sim})
+			}
+		}
 	case "census":
 		// what is installed right now (list + state file), without any request
 		w.Observe(actor, idx, op, nil, 0)
@@ -905,6 +971,18 @@ func (w *World) doRawRequest(actor string, idx int, op *Op) {
 		raw = strings.ReplaceAll(raw, "{RID}", rid)
 	}
 	resp.CallT = w.S.Now()
+	if op.Hold != nil {
+		h := *op.Hold
+		if h.Max <= 0 {
+			h.Max = 2 * time.Second
+		}
+		w.mu.Lock()
+		if w.reqHolds == nil {
+			w.reqHolds = map[string]*Hold{}
+		}
+		w.reqHolds[rid] = &h
+		w.mu.Unlock()
+	}
 	resp.Call = w.H.Add(Event{Kind: "req.call", Actor: actor, Op: idx, Req: rid, Info: firstLine(raw), Task: ri.Name})
 	finish := func() {
 		resp.RetT = w.S.Now()
